@@ -1,7 +1,7 @@
 ------------------------------- MODULE PinTsv -------------------------------
 (* PIN -> rectangular TSV conversion (property C19): mokapot/parsers/pin_to_tsv.py.
 
-   A text is  [lines |-> <<line_1, ..., line_m>>, nl |-> BOOLEAN]  where a line is the sequence of its
+   A text is  [lines |-> <<line_1, ..., line_m>>, nl |-> BOOLEAN, sep |-> the protein separator it is converted with]  where a line is the sequence of its
    tab-separated fields (strings) and nl says whether the last line is newline-terminated.
      line_1           header: column names, exactly one of them "Proteins" (at any position)
      line_2           optionally the DefaultDirection line (first field "DefaultDirection"; any length)
@@ -20,7 +20,8 @@
    its declarative layer (constants and variables are then dummies). *)
 EXTENDS Integers, Sequences, TLC
 
-CONSTANTS MaxFeat,          \* 0..MaxFeat feature columns
+CONSTANTS ProtSep,          \* pin_to_valid_tsv(sep_protein=...): ":" as called by mokapot.py:72, any string through the API
+          MaxFeat,          \* 0..MaxFeat feature columns
           MaxRows,          \* 1..MaxRows PSM lines
           MaxProt,          \* 1..MaxProt proteins per PSM
           Mut_EndOffByOne,  \* fault: idx_prot_end = idx + n_proteins (last protein not folded)
@@ -33,7 +34,6 @@ VARIABLES case,   \* the enumerated structure [nfeat, ppos, dd, nl, prots]     (
           pass, pc, cur, ncol, idx, out, out1
 vars == <<case, x, src, pass, pc, cur, ncol, idx, out, out1>>
 
-ProtSep == ":"            \* pin_to_valid_tsv(sep_protein=":") as called by mokapot.py:72
 ProtCol == "Proteins"     \* parse_pin_header_columns looks the column up by this name
 DDTag   == "DefaultDirection"
 
@@ -63,7 +63,7 @@ InDomain(t) == /\ Len(t.lines) >= 1
 \* the converted row of PSM line r: proteins folded into field p
 RowDef(t, r) == LET p == PPos(t)  k == NProt(t, r) IN
    [j \in 1..NCol(t) |-> IF j < p THEN r[j]
-                         ELSE IF j = p THEN JoinStr(SubSeq(r, p, p + k - 1), ProtSep)
+                         ELSE IF j = p THEN JoinStr(SubSeq(r, p, p + k - 1), t.sep)
                          ELSE r[j + k - 1]]
 ConvertDef(t) == <<Header(t)>> \o [i \in 1..Len(Psms(t)) |-> RowDef(t, Psms(t)[i])]
 
@@ -82,7 +82,7 @@ NonProteinUnchanged(y, t) ==           \* in the original order: output line i+1
 ProteinsJoined(y, t) ==
    \A i \in 1..Len(Psms(t)) : i + 1 <= Len(y) =>
       LET r == Psms(t)[i]  o == y[i + 1]  p == PPos(t)  k == NProt(t, r) IN
-      p <= Len(o) /\ o[p] = JoinStr(SubSeq(r, p, p + k - 1), ProtSep)
+      p <= Len(o) /\ o[p] = JoinStr(SubSeq(r, p, p + k - 1), t.sep)
 
 (* ------------------------------ enumerated inputs ------------------------------ *)
 DDKinds == {"none", "short", "full"}   \* short: 3 + nfeat fields (Percolator's form); full: as many as the header
@@ -98,7 +98,7 @@ MkDD(c) == LET len == IF c.dd = "short" THEN 3 + c.nfeat ELSE 5 + c.nfeat IN
 MkRow(c, i) == InsertAt([j \in 1..(c.nfeat + 4) |-> Cell(i, j)], c.ppos, [m \in 1..c.prots[i] |-> Prot(i, m)])
 MkText(c) == [lines |-> <<MkHeader(c)>> \o (IF c.dd = "none" THEN <<>> ELSE <<MkDD(c)>>)
                         \o [i \in 1..Len(c.prots) |-> MkRow(c, i)],
-              nl |-> c.nl]
+              nl |-> c.nl, sep |-> ProtSep]
 
 (* ------------------------------ implementation-shaped layer ------------------------------ *)
 \* s[a:b] of Python on the 1-based sequence s (negative indices count from the end, then clamping)
@@ -150,7 +150,7 @@ LoopLine == /\ pc = "loop" /\ cur <= Len(src.lines)
             /\ UNCHANGED <<case, x, src, pass, pc, ncol, idx, out1>>
 \* end of file in pass 1: the written file (every line newline-terminated) is converted again
 Rerun == /\ pc = "loop" /\ cur > Len(src.lines) /\ pass = 1
-         /\ out1' = out /\ src' = [lines |-> out, nl |-> TRUE]
+         /\ out1' = out /\ src' = [lines |-> out, nl |-> TRUE, sep |-> ProtSep]
          /\ pass' = 2 /\ pc' = "header" /\ cur' = 1 /\ out' = <<>>
          /\ UNCHANGED <<case, x, ncol, idx>>
 Finish == /\ pc = "loop" /\ cur > Len(src.lines) /\ pass = 2
